@@ -96,6 +96,37 @@ def scan_validation(run, tpls):
     run.count("queries", q.n)
 
 
+def long_listing_probe(run):
+    """Validation on LONG listings (the symbolic checks above use the whole stream as one string of unbounded length, but
+    the consumer is only executed on short ones): occurrences are planted around powers of two of the record count and
+    the real all-matches / first-match results are compared with the planted positions."""
+    n = 3 * 8192 + 50
+    rule = {"pattern": ["push", "call"]}
+    regex_text = jasmapi.compile_rule(rule)
+    for planted in ([8191, 9000, 16383, 20000], [4095, 4097, 8190, 8193, 16384], [0, 1023, 2047, 24620]):
+        L = [(format(0x400000 + i, "x"), "mov", ["%rax", "%rbx"]) for i in range(n)]
+        for p in planted:
+            L[p] = (L[p][0], "push", ["%rbp"])
+            L[p + 1] = (L[p + 1][0], "call", ["401000"])
+        want = [format(0x400000 + p, "x") for p in planted]
+        _, hits, _ = jasmapi.run_consumer(regex_text, L, all_matches=True, only_addr=True)
+        _, first, _ = jasmapi.run_consumer(regex_text, L, all_matches=False, only_addr=True)
+        run.count("traces_validated_against_impl")
+        if hits != want or first != want[:1]:
+            run.failure("scan/LONG/-", f"listing of {n} instructions with [push, call] planted at records {planted}: all-matches {hits}, first-match {first}, expected {want}", {"kind": "scan_long", "planted": planted, "n": n})
+    # two overlapping-candidate rule on a long run
+    rule2 = {"pattern": ["call", "call"]}
+    r2 = jasmapi.compile_rule(rule2)
+    L = [(format(0x400000 + i, "x"), "mov", ["%rax", "%rbx"]) for i in range(n)]
+    for p in (8191, 8192, 8193, 8194):
+        L[p] = (L[p][0], "call", ["401000"])
+    _, hits, _ = jasmapi.run_consumer(r2, L, all_matches=True, only_addr=True)
+    run.count("traces_validated_against_impl")
+    want = [format(0x400000 + 8191, "x"), format(0x400000 + 8193, "x")]
+    if hits != want:
+        run.failure("scan/LONG/-", f"[call, call] on calls at records 8191..8194 of a long listing: {hits}, expected {want}", {"kind": "scan_long", "planted": [8191, 8192, 8193, 8194], "n": n})
+
+
 def main():
     run = Run("C11", "model_checking", "RX+CH")
     # AEM at offset 0 is what makes "the first reported match is the leftmost one" a statement about the very first
@@ -111,6 +142,7 @@ def main():
     tpls += T.gamma11(tier(), seed())
     lemmas.run_templates(run, tpls)
     scan_validation(run, T.gamma11(tier(), seed()))
+    long_listing_probe(run)
     hs = [h for h in c12.harnesses(tier()) if "/modes/" in h.name]
     for h in hs:
         h.key = "forwarding"
@@ -128,6 +160,9 @@ def main():
 def replay(rec):
     if rec.get("kind") == "ch":
         return ch.replay_record(rec)
+    if rec.get("kind") == "scan_long":
+        print("re-run ./check C11 (long listing probe)", rec)
+        return 1
     if rec.get("kind") == "scan":
         t = rec["template"]
         regex_text = jasmapi.compile_rule(t["doc"], t.get("macros"))
